@@ -57,6 +57,18 @@ MulHi32(a, b) == LET m == MulLo(<<a[1], a[2], 0, 0>>, <<b[1], b[2], 0, 0>>) IN <
 NatOf32(a) == a[1] + 65536 * a[2]     \* only valid when < 2^31
 \* J2 mod p for small p: ((hi*65536) + lo) mod p computed without overflow
 Mod32(a, p) == ((a[2] % p) * (65536 % p) + (a[1] % p)) % p
+\* RFC 9106 3.4.2: the index (column within its lane) of the reference block for the block at pass r, slice s, index i of a lane of
+\* length q = 4 * SL, chosen by the 32-bit value J1 (as <<lo16, hi16>>); same = the reference lane is the current lane
+RefIndex(q, SL, r, s, i, same, J1) ==
+  LET W == IF r = 0 THEN (IF s = 0 THEN i - 1 ELSE IF same THEN s * SL + i - 1 ELSE IF i = 0 THEN s * SL - 1 ELSE s * SL)
+           ELSE (IF same THEN q - SL + i - 1 ELSE IF i = 0 THEN q - SL - 1 ELSE q - SL)
+      x == MulHi32(J1, J1)
+      yy == NatOf32(MulHi32(<<W % 65536, W \div 65536>>, x))
+      zz == W - 1 - yy
+      st == IF r # 0 /\ s # 3 THEN (s + 1) * SL ELSE 0
+  IN (st + zz) % q
+\* geometry from the requested memory m (KiB) and parallelism p: m' = 4p * floor(m / 4p) blocks, lanes of q = m' / p, segments of q / 4
+Geometry(mreq, p) == LET mp == 4 * p * (mreq \div (4 * p)) IN [blocks |-> mp, lane |-> mp \div p, seg |-> (mp \div p) \div 4]
 Argon2(y, ver, t, mreq, p, pwd, salt, key, ad, T) ==
   LET mp == 4 * p * (mreq \div (4 * p))
       q == mp \div p
@@ -80,13 +92,7 @@ Argon2(y, ver, t, mreq, p, pwd, salt, key, ad, T) ==
                   J1 == ALo32(pr)   J2 == AHi32(pr)
                   rl == IF r = 0 /\ s = 0 THEN l ELSE Mod32(J2, p)
                   same == rl = l
-                  W == IF r = 0 THEN (IF s = 0 THEN i - 1 ELSE IF same THEN s * SL + i - 1 ELSE IF i = 0 THEN s * SL - 1 ELSE s * SL)
-                       ELSE (IF same THEN q - SL + i - 1 ELSE IF i = 0 THEN q - SL - 1 ELSE q - SL)
-                  x == MulHi32(J1, J1)
-                  yy == NatOf32(MulHi32(<<W % 65536, W \div 65536>>, x))
-                  zz == W - 1 - yy
-                  st == IF r # 0 /\ s # 3 THEN (s + 1) * SL ELSE 0
-                  rc == (st + zz) % q
+                  rc == RefIndex(q, SL, r, s, i, same, J1)
                   nb0 == GComp(m[idx(l, prev)], m[idx(rl, rc)])
                   nb == IF ver = 19 /\ r > 0 THEN XorBlk(nb0, m[idx(l, c)]) ELSE nb0
               IN << TLCEval([m EXCEPT ![idx(l, c)] = nb]), TLCEval(ab) >>
